@@ -67,6 +67,10 @@ pub enum Op {
     SliceToBox(u16, i8),
     SliceToArr(u16, i8),
     Drop(u16),
+    /// zip a pool array with a freshly generated array of plain u32 (no drop glue) on the left or the right; form = lhs*3+rhs
+    ZipPlain(u16, u8, bool),
+    /// a collect that must fail: the source yields N + delta items (delta != 0) behind a hint that does not rule N out
+    FailedCollect(u8, i8, bool),
 }
 
 #[derive(Clone, Debug, Serialize, Deserialize, PartialEq, Eq, Hash)]
@@ -128,6 +132,14 @@ struct World<T: Elem> {
     pool: Vec<Slot<T>>,
     next_val: u32,
     stats: Stats,
+}
+
+/// put a by-reference operand back: a placeholder enum value is overwritten with the real array
+fn keep<T, N: ArrayLength>(x: GenericArray<T, N>) -> DynArr<T>
+where
+    DynArr<T>: From<GenericArray<T, N>>,
+{
+    DynArr::from(x)
 }
 
 fn mix1(v: u32) -> u32 {
@@ -804,6 +816,81 @@ impl<T: Elem + Clone + Default + Peek> World<T> {
                     }
                 }
             }
+            Op::ZipPlain(s, form, plain_left) => {
+                let i = need!(self.pick(s, Ty::Arr));
+                let n = self.pool[i].m.len();
+                let (pf, af) = if plain_left { (form % 3, (form / 3) % 3) } else { ((form / 3) % 3, form % 3) };
+                let base = self.fresh();
+                self.next_val += n as u32;
+                let pv: Vec<u32> = (0..n as u32).map(|k| base + k).collect();
+                let m: Vec<u32> = self.pool[i].m.iter().zip(&pv).map(|(a, p)| if plain_left { mix2(*p, T::norm(*a)) } else { mix2(T::norm(*a), *p) }).collect();
+                let Slot { e, m: ma } = self.pool.remove(i);
+                let Entry::Arr(a) = e else { unreachable!() };
+                let mut kept: Option<DynArr<T>> = None;
+                if af == 0 {
+                    self.stats.chained = true;
+                    self.stats.lib_released = true;
+                }
+                macro_rules! zp {
+                    ($l:expr, $r:expr) => {
+                        DynArr::from_iter(n, $l.zip($r, |l, r| {
+                            let v = mix2(pk(&l), pk(&r));
+                            drop((l, r));
+                            T::mk(v)
+                        }))
+                    };
+                }
+                let r = arr_match!(a, x => {
+                    let mut p = GenericArray::<u32, _>::from_iter(pv.iter().copied());
+                    fn same_len<A, B, N: ArrayLength>(_: &GenericArray<A, N>, _: &GenericArray<B, N>) {}
+                    same_len(&x, &p);
+                    let out = match (plain_left, pf, af) {
+                        (true, 0, 0) => zp!(p, x),
+                        (true, 0, 1) => { let o = zp!(p, &x); kept = Some(keep(x)); o }
+                        (true, 0, _) => { let mut x = x; let o = zp!(p, &mut x); kept = Some(keep(x)); o }
+                        (true, 1, 0) => zp!(&p, x),
+                        (true, 1, 1) => { let o = zp!(&p, &x); kept = Some(keep(x)); o }
+                        (true, 1, _) => { let mut x = x; let o = zp!(&p, &mut x); kept = Some(keep(x)); o }
+                        (true, _, 0) => zp!(&mut p, x),
+                        (true, _, 1) => { let o = zp!(&mut p, &x); kept = Some(keep(x)); o }
+                        (true, _, _) => { let mut x = x; let o = zp!(&mut p, &mut x); kept = Some(keep(x)); o }
+                        (false, 0, 0) => zp!(x, p),
+                        (false, 1, 0) => zp!(x, &p),
+                        (false, _, 0) => zp!(x, &mut p),
+                        (false, 0, 1) => { let o = zp!(&x, p); kept = Some(keep(x)); o }
+                        (false, 1, 1) => { let o = zp!(&x, &p); kept = Some(keep(x)); o }
+                        (false, _, 1) => { let o = zp!(&x, &mut p); kept = Some(keep(x)); o }
+                        (false, 0, _) => { let mut x = x; let o = zp!(&mut x, p); kept = Some(keep(x)); o }
+                        (false, 1, _) => { let mut x = x; let o = zp!(&mut x, &p); kept = Some(keep(x)); o }
+                        (false, _, _) => { let mut x = x; let o = zp!(&mut x, &mut p); kept = Some(keep(x)); o }
+                    };
+                    out
+                });
+                if let Some(k) = kept {
+                    self.push(Entry::Arr(k), ma);
+                }
+                self.push(Entry::Arr(r), m);
+            }
+            Op::FailedCollect(n, d, boxed) => {
+                let n = (n as usize).min(MAXN);
+                let c = if d >= 0 { n + 1 + (d as usize % 3) } else { n.saturating_sub(1 + ((-(d as i32)) as usize % 2)) };
+                if c == n {
+                    return Ok(());
+                }
+                let base = self.next_val + 1;
+                self.next_val += c as u32;
+                let items: Vec<T> = (0..c as u32).map(|k| T::mk(base + k)).collect();
+                self.stats.lib_released = true;
+                // `filter` hides the upper bound, so the mismatch is only discovered while filling
+                let ok = if boxed {
+                    DynBox::try_boxed_from_iter(n, items.into_iter().filter(|_| true)).is_ok()
+                } else {
+                    DynArr::try_from_iter(n, items.into_iter().filter(|_| true)).is_ok()
+                };
+                if ok {
+                    return Err(format!("a source of {c} items was collected into an array of length {n}"));
+                }
+            }
             Op::Drop(s) => {
                 if self.pool.is_empty() {
                     return Ok(());
@@ -909,6 +996,8 @@ pub fn op_strategy() -> impl Strategy<Value = Op> {
         1 => (s(), -1i8..2).prop_map(|(a, d)| Op::SliceToBox(a, d)),
         1 => (s(), -1i8..2).prop_map(|(a, d)| Op::SliceToArr(a, d)),
         3 => s().prop_map(Op::Drop),
+        3 => (s(), 0u8..9, any::<bool>()).prop_map(|(a, f, l)| Op::ZipPlain(a, f, l)),
+        2 => (0u8..13, -2i8..3, any::<bool>()).prop_map(|(n, d, b)| Op::FailedCollect(n, d, b)),
     ]
 }
 
@@ -940,7 +1029,7 @@ pub fn main() {
         Report {
             prop: PROP,
             level: "exploration",
-            rule: "cases = histories of 0..40 ownership-moving operations (42 operation kinds) over a pool of live values: arrays of length 0..=12, by-value iterators in arbitrary positions, Box<GenericArray>, Vec, Box<[T]> and loose elements; operands are chosen by selector among the eligible pool entries so outputs feed later operations. \
+            rule: "cases = histories of 0..40 ownership-moving operations (44 operation kinds, including zips of the tracked arrays with plain no-drop-glue arrays on either side and collects that must fail) over a pool of live values: arrays of length 0..=12, by-value iterators in arbitrary positions, Box<GenericArray>, Vec, Box<[T]> and loose elements; operands are chosen by selector among the eligible pool entries so outputs feed later operations. \
                    Oracle: drop registry (no double drop, no garbage drop, no observation after drop, nothing live at the end) plus a value model of every pool entry compared after every step. \
                    non-trivial = at least 3 operations, at least one operation consuming the output of an earlier one, and at least one element released by the library rather than the harness; distinct = distinct (kind, operation list)",
             exhaustive: false,
@@ -967,7 +1056,7 @@ pub fn decode(data: &[u8]) -> Case {
         let s1 = u16::from_le_bytes([g(1), g(2)]);
         let s2 = u16::from_le_bytes([g(3), g(4)]);
         let b = g(5);
-        ops.push(match g(0) % 42 {
+        ops.push(match g(0) % 44 {
             0 => Op::New(b % 12, (s1 % 13) as u8),
             1 => Op::IntoIter(s1),
             2 => Op::Map(s1, b % 3),
@@ -1009,7 +1098,9 @@ pub fn decode(data: &[u8]) -> Case {
             38 => Op::VecToBox(s1, (b % 3) as i8 - 1),
             39 => Op::SliceToBox(s1, (b % 3) as i8 - 1),
             40 => Op::SliceToArr(s1, (b % 3) as i8 - 1),
-            _ => Op::Drop(s1),
+            41 => Op::Drop(s1),
+            42 => Op::ZipPlain(s1, b % 9, s2 % 2 == 1),
+            _ => Op::FailedCollect((s1 % 13) as u8, (b % 5) as i8 - 2, s2 % 2 == 1),
         });
     }
     Case { kind, ops }
